@@ -4,7 +4,11 @@ import plistlib
 from vlib import wire, logs
 
 NAMES = [b'kernel_task', b'launchd', b'Safari', b'tccd', b'a', b'', b'caf\xc3\xa9', b'\xe6\x97\xa5\xe6\x9c\xac',
-         b'x' * 19, b'\xc3\xa9' * 9, b'proc with space', b'p(1)', b'wifid', b'mDNSResponder', b'0123456789abcdefghi']
+         b'x' * 19, b'\xc3\xa9' * 9, b'proc with space', b'p(1)', b'wifid', b'mDNSResponder', b'0123456789abcdefghi',
+         # the same text has several Unicode spellings and the dump's own spelling is the one to report: decomposed
+         # (e + U+0301), compatibility characters (ANGSTROM SIGN, the fi ligature), four-byte characters, case pairs
+         'Cafe\u0301'.encode(), '\u212bngstro\u0308m'.encode(), '\ufb01le\u2126'.encode(), 'app\U0001f34e'.encode(),
+         'Stra\u00dfe'.encode(), '\u0130stanbul'.encode()]
 
 
 def gen_threadmap(rng, n=None, small_keys=True):
